@@ -191,8 +191,14 @@ def run_job(job):
             storage = FilesystemStorageBackend(path=os.path.join(base, "data"), memory_cache_mb=mb)
         from twosigma.memento.runner_null import NullRunnerBackend
         runner = NullRunnerBackend() if cfg.get("runner") == "null" else None
-        Environment.set(Environment(name="verif", base_dir=base, repos=[ConfigurationRepository(
-            name="r", clusters={"vr": FunctionCluster(name="vr", storage=storage, runner=runner)})]))
+        def make_env(st):
+            return Environment(name="verif", base_dir=base, repos=[ConfigurationRepository(
+                name="r", clusters={"vr": FunctionCluster(name="vr", storage=st, runner=runner)})])
+        work_env = make_env(storage)
+        # the store is looked at, after every operation, through a backend object of its own (no cache): observing must not
+        # change what the backend under test has cached
+        obs_env = make_env(FilesystemStorageBackend(path=os.path.join(base, "data"))) if cfg["backend"] == "fs" else work_env
+        Environment.set(work_env)
         mod = importlib.import_module(pkg + ".mod")
         if job.get("mech"):
             install_mech_recording(storage)
@@ -204,6 +210,14 @@ def run_job(job):
             ev = dict(op)
             ev["exc"] = ""
             name = op["op"]
+            if name == "Reopen":
+                if cfg["backend"] == "fs":
+                    storage = FilesystemStorageBackend(path=os.path.join(base, "data"), memory_cache_mb=mb)
+                    work_env = make_env(storage)
+                    Environment.set(work_env)
+                    if job.get("mech"):
+                        install_mech_recording(storage)
+                continue
             if name == "Prevent" and op.get("via") == "nested":
                 _counter[0] += 1
                 nonce = _counter[0]
@@ -274,7 +288,11 @@ def run_job(job):
             if job.get("mech"):
                 ev["mech"] = mech_events(op, items, ev)
             ev["ran"] = [[it[1], it[2]] for it in items if it[0] == "Body"]
-            ev["mem"] = project(mod, nfn, amax, resdir)
+            Environment.set(obs_env)
+            try:
+                ev["mem"] = project(mod, nfn, amax, resdir)
+            finally:
+                Environment.set(work_env)
             events.append(ev)
         return {"cfg": {"prog": job["prog"], "backend": cfg}, "ev": events}
     finally:
